@@ -20,10 +20,18 @@ def scenario(rng, k, tier):
     cur_roc = 0
     seq = rng.choice([0, 100, 32768, 60000, 65000, 65000, 65530, 65535])
     started = rng.random() < 0.75
-    def send(seqv, expect_roc):
+    def send(seqv, expect_roc, refused_first=0):
         pkt = rtp_packet(ssrc, seqv & 0xffff, payload=bytes([seqv & 0xff] * 8))
         L.append(pkt_op("protect", 1, pkt, cap=len(pkt) + 20, mode=0))
         a = len(L)
+        # deliveries the receiver must refuse WITHOUT losing the imposed ROC ("# X" = not judged): a damaged copy (bit flipped in
+        # the payload or the tag), a call with an output buffer that is too small
+        for _ in range(refused_first):
+            L.append("# X")
+            if rng.random() < 0.7:
+                L.append(pkt_op("unprotect", 2, f"@{a:x}~{rng.randrange(8 * 12, 8 * (len(pkt) + 10)):x}", cap=len(pkt) + 20, mode=0))
+            else:
+                L.append(pkt_op("unprotect", 2, f"@{a:x}", cap=rng.choice([0, 4, len(pkt) - 1]), mode=rng.choice([1, 2])))
         L.append(pkt_op("unprotect", 2, f"@{a:x}", cap=len(pkt) + 20, mode=0))
         L.append(f"getroc 1 {H(ssrc)}"); L.append(f"getroc 2 {H(ssrc)}")
         info.append((a, expect_roc, pkt))
@@ -50,8 +58,10 @@ def scenario(rng, k, tier):
     target = true_idx + 2 * 65536 + 2000
     stride = 4000 if tier == "quick" else 900
     pending = []
+    first_refused = rng.choice([0, 0, 1, 1, 2, 3])
     while true_idx < target:
-        send(true_idx, true_idx >> 16)
+        send(true_idx, true_idx >> 16, first_refused)
+        first_refused = 0
         if rng.random() < 0.2 and true_idx > 3:
             send(true_idx - rng.choice([1, 2, 3]), (true_idx) >> 16)   # late packet (may be replay)
         true_idx += rng.choice([1, 2, stride, stride, stride + 13])
@@ -101,10 +111,13 @@ def monitor(script, c):
                     return hits
                 hi = max(hi, idx)
                 # the peer must accept it and both get_roc must report idx>>16
-                ou = out.get(n + 1, []); g1 = out.get(n + 2, []); g2 = out.get(n + 3, [])
+                k = n + 1
+                while k < len(sl) and sl[k - 1].strip() == "# X":
+                    k += 2                     # deliveries that are refused on purpose
+                ou = out.get(k, []); g1 = out.get(k + 1, []); g2 = out.get(k + 2, [])
                 if len(ou) > 2 and int(ou[2], 16) != 0:
                     hits.append({"what": "after set_roc the receiver rejects an authentic in-order packet",
-                                 "signature": "setroc-receiver-stuck", "detail": f"line {n+1}: status {ou[2]} at index {idx:x}"})
+                                 "signature": "setroc-receiver-stuck", "detail": f"line {k}: status {ou[2]} at index {idx:x}"})
                     return hits
                 for g, who in ((g1, "sender"), (g2, "receiver")):
                     if len(g) > 3 and int(g[2], 16) == 0 and int(g[3], 16) != idx >> 16:
